@@ -252,6 +252,9 @@ def line_search(
     f_m1 = f0
     dphi_m1 = dphi0
     _iter = 0
+    # lowest trial so far: only a trial strictly better than the start may be returned
+    best_stp: Optional[float] = None
+    best_f: float = f0
 
     if not is_use_minpack2:
         # careful, there is an issue in the DCSRRCH.__call__ function. It returns
@@ -291,12 +294,11 @@ def line_search(
             )
 
         if task[:2] == b"FG":
-            stp_old: float = copy(steplength_0)
-            f_m1_old: float = copy(f_m1)
             steplength_0 = steplength
             f_m1, dphi_m1 = sf.fun_and_grad(x0 + steplength * d)
             dphi_m1 = dphi_m1.dot(d)
-            best_stp = steplength if f_m1 < f_m1_old else stp_old
+            if f_m1 < best_f:
+                best_stp, best_f = steplength, f_m1
         else:
             break
         _iter += 1
